@@ -11,7 +11,8 @@ the file format or of the reader, not of the writer):
     parallel to the LDR faces; BModel.phys_keyvalues is None exactly when there are no physics solids;
   * static-prop fields that a format version does not store hold the value its reader substitutes;
   * entity values with exactly four commas that would parse as an output are not used as plain keyvalues, output
-    delays have at most 6 significant digits (text format `%g`).
+    delays have at most 6 significant digits (text format `%g`); they are floats, Python ints or bools (the constructor does not
+    convert them), times are Python ints.
 """
 from __future__ import annotations
 
@@ -400,7 +401,7 @@ class Gen:
                 for _k in range(self.n(r, 3)):
                     e.add_out(Output(r.choice(['OnTrigger', 'OnUser1', 'OnMapSpawn']), r.choice(['relay1', '!self', 'a b']),
                                      r.choice(['Trigger', 'FireUser1', 'Kill']), text(r).replace('\x1b', '').replace(',', ';') if comma else text(r),
-                                     r.choice([0.0, 1.0, 0.5, 2.25, 10.0, 0.125]), times=r.choice([-1, 1, 5]), comma_sep=comma))
+                                     r.choice([0.0, 1.0, 0.5, 2.25, 10.0, 0.125, 100.0, 0, 1, 10, 100, 30, 7, True]), times=r.choice([-1, 1, 5, 0, 10]), comma_sep=comma))
             vmf.add_ent(e)
             ents.append(e)
         w['ents'] = vmf
